@@ -67,9 +67,17 @@ def cases(tier, seed):
                 out.append({"kind": "chain", "edge": k, "named": True, "depth": depth, "L": L})
                 if k != "ref":
                     out.append({"kind": "chain", "edge": k, "named": False, "depth": depth, "L": L})
+    # malformed schema nodes (non-mapping where a schema is expected) in every position the parser recurses into, inside a component
+    # schema and inside an operation's inline response / request schema (where parse_operations swallows the error and carries on
+    # with the SAME parsing context): whatever happens, the tracker must be at rest when loading ends
+    for bad in ("string", 7, ["a"], None, True):
+        for pos in ("property", "items", "additionalProperties", "allOf-member", "oneOf-member", "nested-property"):
+            for where in ("component", "response", "requestBody", "parameter"):
+                out.append({"kind": "malformed", "bad": bad, "pos": pos, "where": where, "L": None})
     out.append({"kind": "tlc", "names": ["User", "UserGroup", "UserGroupItem"], "max_depth": 2, "max_frames": 2 if tier == "quick" else 3, "L": None})
     # long-running chain cases first (tail latency), then dedupe
-    out = [c for c in out if c["kind"] == "tlc"] + [c for c in out if c["kind"] == "chain"][::-1] + [c for c in out if c["kind"] == "graph"]
+    out = [c for c in out if c["kind"] == "tlc"] + [c for c in out if c["kind"] == "chain"][::-1] + [c for c in out if c["kind"] == "malformed"] \
+        + [c for c in out if c["kind"] == "graph"]
     seen = set()
     uniq = []
     for c in out:
@@ -121,6 +129,36 @@ def chain_doc(edge, named, depth):
 
     return sandbox.base_doc({"Top": {"type": "object", "properties": {"v": {"type": "integer"}, "n": nest(depth)}},
                              "After": {"type": "object", "properties": {"t": {"$ref": "#/components/schemas/Top"}}}})
+
+
+def malformed_doc(case):
+    bad, pos = case["bad"], case["pos"]
+    good = {"type": "object", "properties": {"v": {"type": "integer"}}}
+    if pos == "property":
+        sch = {"type": "object", "properties": {"owner": bad, "ok": {"type": "string"}}}
+    elif pos == "items":
+        sch = {"type": "object", "properties": {"list": {"type": "array", "items": bad}}}
+    elif pos == "additionalProperties":
+        sch = {"type": "object", "properties": {"m": {"type": "object", "additionalProperties": bad if not isinstance(bad, bool) else ["x"]}}}
+    elif pos == "allOf-member":
+        sch = {"allOf": [{"$ref": "#/components/schemas/Good"}, bad]}
+    elif pos == "oneOf-member":
+        sch = {"type": "object", "properties": {"u": {"oneOf": [{"$ref": "#/components/schemas/Good"}, bad]}}}
+    else:
+        sch = {"type": "object", "properties": {"meta": {"type": "object", "properties": {"inner": {"type": "object", "properties": {"owner": bad}}}}}}
+    doc = sandbox.base_doc({"Good": good, "After": {"type": "object", "properties": {"g": {"$ref": "#/components/schemas/Good"},
+                                                                                       "deep": {"type": "object", "properties": {"x": {"type": "object", "properties": {"y": {"type": "string"}}}}}}}})
+    ok = {"200": {"description": "ok", "content": {"application/json": {"schema": {"$ref": "#/components/schemas/After"}}}}}
+    if case["where"] == "component":
+        doc["components"]["schemas"] = {"Good": good, "Broken": sch, "After": doc["components"]["schemas"]["After"]}
+    elif case["where"] == "response":
+        doc["paths"]["/broken"] = {"get": {"operationId": "getBroken", "responses": {"200": {"description": "d", "content": {"application/json": {"schema": sch}}}}}}
+    elif case["where"] == "requestBody":
+        doc["paths"]["/broken"] = {"post": {"operationId": "postBroken", "requestBody": {"content": {"application/json": {"schema": sch}}}, "responses": ok}}
+    else:
+        doc["paths"]["/broken"] = {"get": {"operationId": "getBroken", "parameters": [{"name": "f", "in": "query", "schema": sch}], "responses": ok}}
+    doc["paths"]["/after"] = {"get": {"operationId": "getAfter", "responses": ok}}
+    return doc
 
 
 # ----------------------------------------------------------------------------------------------
@@ -295,6 +333,10 @@ def run_case(case):
         doc = graphs.doc_of(case)
         label = f"{case['menu']}|{graphs.describe(case)}|L={case['L']}"
         nontriv = graphs.has_cycle(case["nodes"]) or case["L"] is not None
+    elif case["kind"] == "malformed":
+        doc = malformed_doc(case)
+        label = f"malformed|{type(case['bad']).__name__}|{case['pos']}|{case['where']}"
+        nontriv = True
     else:
         doc = chain_doc(case["edge"], case["named"], case["depth"])
         label = f"chain|{case['edge']}|{'named' if case['named'] else 'anonymous'}|depth={case['depth']}|L={case['L']}"
@@ -305,20 +347,26 @@ def run_case(case):
     found = []
 
     def add(clause, disc, detail):
-        ctx = "graph" if case["kind"] == "graph" else f"chain:{case['edge']}:{'named' if case['named'] else 'anonymous'}"
+        ctx = case["kind"] if case["kind"] in ("graph", "malformed") else f"chain:{case['edge']}:{'named' if case['named'] else 'anonymous'}"
         found.append({"sig": f"C08|{clause}|{disc}|{ctx}", "key": label, "msg": f"{detail} in {label}"})
 
     if isinstance(err, RecursionError):
         add("termination", "RecursionError (interpreter stack exhausted instead of a depth placeholder)", "load raised RecursionError")
-    elif err is not None:
-        # visible rejection: outside this property, but the tracker must still have been left balanced at top-level boundaries
-        pass
+    elif err is not None and case["kind"] != "malformed":
+        # every document of the graph / chain spaces is well formed: the loader has no reason to reject it
+        add("load", f"well-formed document rejected: {type(err).__name__}", str(err)[:200])
+    # end of loading (returned or raised): the tracker of the parsing context must be at rest
+    if mon.ctx is not None:
+        ucc = mon.ctx.unified_cycle_context
+        if ucc.recursion_depth != 0 or ucc.schema_stack or any(v == ucd.SchemaState.IN_PROGRESS for v in ucc.schema_states.values()):
+            add("rest", "tracker not at rest when loading ends", f"depth={ucc.recursion_depth} stack={ucc.schema_stack} "
+                f"in_progress={[k for k, v in ucc.schema_states.items() if v == ucd.SchemaState.IN_PROGRESS]}")
     for clause, disc, detail in mon.violations:
         add(clause, disc, detail)
     dv = discipline_violation(mon.events)
     if dv:
         add("discipline", "the parser's enter/exit sequence is not a path of the tracker model's environment (unbalanced enter/exit)", dv)
-    if ir is not None:
+    if ir is not None and case["kind"] != "malformed":
         for clause, disc, detail in final_checks(mon, ir, doc, ucd):
             add(clause, disc, detail)
         if case["kind"] == "chain":
